@@ -332,6 +332,11 @@ def insertmix_guard(ctx, P):
                     origins(b, a, visited=vis)
                 if pls & vis:
                     edges.append((blk, be[1] if d[2].callee.endswith('eq') else be[0]))        # the prevline != None edge
+            elif d[0] == 'call' and re.search(r'Option::<T>::(is_some|is_none)$', d[2].callee) and be:
+                vis = set()
+                origins(b, d[2].args[0], visited=vis)
+                if pls & vis:
+                    edges.append((blk, be[0] if d[2].callee.endswith('is_some') else be[1]))    # the prevline.is_some() edge
             elif d[0] == 'stmt' and d[3]['rv']['rv'] == 'discr' and d[3]['rv']['place']['l'] in pls:
                 for v_, tg in zip(t['vals'], t['targets']):
                     if v_ == 1:
